@@ -184,3 +184,47 @@ Proof.
     apply andb_prop in H. destruct H as [Hs Hm]. apply seg_eqb_true in Hs. subst s'.
     cbn [count_seg]. rewrite (IH _ Hm s). rewrite (take_head_count _ _ _ _ E s). reflexivity.
 Qed.
+
+(* ---------- the concrete preprocessor path source.<src>[next].<field> ---------- *)
+From PV Require Import Model.Scenario.
+
+(* With k earlier evaluations on this iterator and table (k < 2^63) and a non-empty table, the
+   path yields the field of row k mod len, consumes exactly one counter value of that
+   segment and leaves every other counter alone. *)
+Lemma eval_next_row own src field (t : ctree) (w : cworld) rows c0 :
+  assoc_table (cs_tables (t_src t)) src = Some rows -> rows <> [] ->
+  repr (w_iter w) c0 -> (N.of_nat (c0 (seg_next own src)) < two63)%N ->
+  exists w',
+    eval_pexpr own (PNext src field) t w =
+      Some (w', row_field rows (c0 (seg_next own src) mod length rows) field) /\
+    repr (w_iter w') (bump c0 (seg_next own src)) /\
+    w_arr w' = w_arr w /\ w_script w' = w_script w.
+Proof.
+  intros Ht Hne Hr Hk. unfold eval_pexpr. rewrite Ht.
+  pose proof (it_next_repr (w_iter w) c0 (seg_next own src) Hr) as [Hv Hr'].
+  destruct (it_next (w_iter w) (seg_next own src)) as [v st]. cbn [fst snd] in Hv, Hr'.
+  rewrite Hv. rewrite next_row_k; [|destruct rows; [contradiction|cbn [length]; lia]|exact Hk].
+  eexists. split; [reflexivity|]. split; [exact Hr'|split; reflexivity].
+Qed.
+
+(* no other path expression touches the iterator *)
+Lemma eval_other_keeps_iter own e (t : ctree) (w w' : cworld) r :
+  (forall src field, e <> PNext src field) ->
+  eval_pexpr own e t w = Some (w', r) -> w' = w.
+Proof.
+  intros Hn. destruct e as [src f|src f|src i f|k|rq v|rq v]; cbn [eval_pexpr].
+  - exfalso. eapply Hn. reflexivity.
+  - destruct (assoc_table _ src) as [[|row rows]|]; intros H; try discriminate; injection H as <- _; reflexivity.
+  - destruct (assoc_table _ src) as [[|row rows]|]; intros H; try discriminate; injection H as <- _; reflexivity.
+  - intros H; injection H as <- _; reflexivity.
+  - intros H; injection H as <- _; reflexivity.
+  - intros H; injection H as <- _; reflexivity.
+Qed.
+
+(* Without the single critical section the property is false: two instances whose first
+   lookups both miss both receive 0 (the same row). *)
+Lemma split_next_refuted :
+  exists ops, split_run [] [] ops = [(0%nat, 0%N); (1%nat, 0%N)].
+Proof.
+  exists [OpLookup 0 [1%N]; OpLookup 1 [1%N]; OpFinish 0 [1%N]; OpFinish 1 [1%N]]. reflexivity.
+Qed.
